@@ -660,3 +660,39 @@ Proof.
   rewrite agree_s_spec by (destruct name; discriminate).
   tauto.
 Qed.
+
+(* ------------------------------------------------------------------ consequences *)
+
+Section Injective.
+  Context (xidc : N -> bool).
+  Hypothesis ascii_ok :
+    forall c, c < 128 -> ident_part_char xidc c = true -> ascii_ident_expected c = true.
+
+  (** Different names never get the same text. *)
+  Lemma format_symbol_injective : forall s1 s2,
+    format_symbol xidc s1 = format_symbol xidc s2 -> s1 = s2.
+  Proof.
+    intros s1 s2 H.
+    pose proof (symbol_roundtrip xidc ascii_ok s1) as H1.
+    pose proof (symbol_roundtrip xidc ascii_ok s2) as H2.
+    rewrite H in H1. rewrite H1 in H2. injection H2 as H2. unfold symbol_node in H2.
+    destruct (is_identifier xidc s1), (is_identifier xidc s2); congruence.
+  Qed.
+
+  Lemma format_remote_symbol_injective : forall n1 r1 n2 r2,
+    format_remote_symbol xidc n1 r1 = format_remote_symbol xidc n2 r2 -> n1 = n2 /\ r1 = r2.
+  Proof.
+    intros n1 r1 n2 r2 H.
+    pose proof (remote_roundtrip xidc ascii_ok n1 r1) as H1.
+    pose proof (remote_roundtrip xidc ascii_ok n2 r2) as H2.
+    rewrite H in H1. rewrite H1 in H2. injection H2 as -> ->. split; reflexivity.
+  Qed.
+End Injective.
+
+Lemma escape_string_injective : forall s1 s2, escape_string s1 = escape_string s2 -> s1 = s2.
+Proof.
+  intros s1 s2 H.
+  pose proof (string_literal_roundtrip s1 []) as H1.
+  pose proof (string_literal_roundtrip s2 []) as H2.
+  rewrite !format_string_value in *. rewrite H in H1. rewrite H1 in H2. congruence.
+Qed.
